@@ -9,6 +9,25 @@ pub struct NaijaRun {
     pub stdout: Vec<u8>,
     pub stderr: Vec<u8>,
     pub code: i32,
+    /// processes of the binary's process group that were still alive when it returned
+    pub leftover: Vec<i32>,
+}
+
+/// Live (non-zombie) processes whose process group is `pgid`.
+fn group_members(pgid: i32) -> Vec<i32> {
+    let mut v = vec![];
+    let Ok(dir) = std::fs::read_dir("/proc") else { return v };
+    for e in dir.flatten() {
+        let Some(pid) = e.file_name().to_str().and_then(|s| s.parse::<i32>().ok()) else { continue };
+        let Ok(stat) = std::fs::read_to_string(format!("/proc/{pid}/stat")) else { continue };
+        // pid (comm) state ppid pgrp ...
+        let Some(rest) = stat.rsplit(") ").next() else { continue };
+        let f: Vec<&str> = rest.split(' ').collect();
+        if f.len() > 2 && f[0] != "Z" && f[0] != "X" && f[2].parse::<i32>().ok() == Some(pgid) {
+            v.push(pid);
+        }
+    }
+    v
 }
 
 pub fn naija_bin() -> Result<String, String> {
@@ -81,8 +100,31 @@ pub fn run_naija_args(bin: &str, args: &[&str], feed: Feed<'_>) -> Result<NaijaR
             sender = Some(b);
         }
     }
+    // own process group, so that a run that does not end can be killed together with its children
+    {
+        use std::os::unix::process::CommandExt;
+        cmd.process_group(0);
+    }
     let mut child = cmd.spawn().map_err(|e| format!("spawn {bin}: {e}"))?;
+    let pgid = child.id() as i32;
     drop(cmd); // closes our copy of the child's end
+    // no real run of this harness needs more than a few seconds; 90 s is "never finished"
+    let done = std::sync::Arc::new(std::sync::atomic::AtomicBool::new(false));
+    let timed_out = std::sync::Arc::new(std::sync::atomic::AtomicBool::new(false));
+    {
+        let (done, timed_out) = (done.clone(), timed_out.clone());
+        std::thread::spawn(move || {
+            let t0 = std::time::Instant::now();
+            while !done.load(std::sync::atomic::Ordering::SeqCst) {
+                if t0.elapsed().as_secs() >= 90 {
+                    timed_out.store(true, std::sync::atomic::Ordering::SeqCst);
+                    unsafe { libc::kill(-pgid, libc::SIGKILL) };
+                    return;
+                }
+                std::thread::sleep(std::time::Duration::from_millis(50));
+            }
+        });
+    }
     match feed {
         Feed::Null => {}
         Feed::Pipe(pieces) => {
@@ -120,7 +162,14 @@ pub fn run_naija_args(bin: &str, args: &[&str], feed: Feed<'_>) -> Result<NaijaR
         }
     }
     let out = child.wait_with_output().map_err(|e| format!("wait: {e}"))?;
-    Ok(NaijaRun { stdout: out.stdout, stderr: out.stderr, code: out.status.code().unwrap_or(-1) })
+    done.store(true, std::sync::atomic::Ordering::SeqCst);
+    // whatever the binary left behind in its process group is recorded, then goes
+    let leftover = group_members(pgid);
+    unsafe { libc::kill(-pgid, libc::SIGKILL) };
+    if timed_out.load(std::sync::atomic::Ordering::SeqCst) {
+        return Ok(NaijaRun { stdout: out.stdout, stderr: b"killed by the harness: still running after 90 s".to_vec(), code: -9, leftover });
+    }
+    Ok(NaijaRun { stdout: out.stdout, stderr: out.stderr, code: out.status.code().unwrap_or(-1), leftover })
 }
 
 pub fn unhex(s: &str) -> Vec<u8> {
